@@ -301,7 +301,7 @@ def run(ctx):
             continue
         if len(doc.recs) > 250:
             continue
-        fam = rng.choice(['valid', 'faults', 'faults', 'canaries', 'canaries', 'mutated'])
+        fam = rng.choice(['valid', 'faults', 'faults', 'canaries', 'canaries', 'mutated', 'soup'])
         kinds = [fam]
         if fam in ('faults', 'mutated'):
             for _ in range(rng.randint(1, 6)):
@@ -312,6 +312,10 @@ def run(ctx):
         if fam == 'canaries':
             doc = plant_canaries(rng, doc, rng.randint(1, 5), terms)
         text = doc.text(terms[0], terms[1], terms[2], '\n' if terms[0] != '\n' else '')
+        if fam == 'soup':
+            text = mutate.envelope_soup(rng, e['icvn'])
+            terms = ('~', '*', ':')
+            ctx.count('inputs:envelope-soup')
         if fam == 'mutated':
             text, names = mutate.mutate(rng, text)
             kinds += names
